@@ -331,3 +331,30 @@ def check_serde_tables(ctx, res, config="all"):
     else:
         res.fail(Finding("R7-anchor-lost", "Serialize for BigUint", "impl not found", file="src/biguint/serde.rs", line=0))
     res.clause("R7: serde tables - Sign<->i8 {-1,0,1} with rejection of every other byte; BigInt <-> (sign, magnitude) through from_biguint; bounded pre-allocation; declared length and emitted tail test the same value")
+
+
+def check_serde_hint_confined(ctx, res, config="all"):
+    """the sequence's size hint (untrusted, capped by `cautious`) may only size the pre-allocation: it must not reach the
+    deserialised value or decide when the element loop stops"""
+    from . import r6
+
+    facts = ctx.facts(config)
+    n = 0
+    for b in facts.bodies:
+        if "serde" not in (b.file or "") or b.name != "visit_seq":
+            continue
+        sources = []
+        for i, t in b.calls():
+            if i in b.live_blocks() and callee_name(t) in ("size_hint", "cautious"):
+                sources.append((i, "T", callee_name(t) + "()", t["span"]["line"]))
+        if not sources:
+            continue
+        n += 1
+        bad = r6.taint_reaches_result(b, sources)
+        if bad:
+            res.fail(Finding("R7-serde-hint-reaches-result", b.path, "the sequence's size hint (line %s: %s) influences the deserialised value (%s); a hint may only size the pre-allocation" % (bad[0], bad[1], bad[2]), b, bad[0]))
+        else:
+            res.ok("R7-serde-hint-confined", b.path, {"hint_sources": len(sources), "sink": "Vec::with_capacity only"})
+    if n < 1:
+        res.fail(Finding("R7-anchor-lost", "visit_seq", "no visit_seq body using a size hint found", file="src/biguint/serde.rs", line=0))
+    res.clause("R7: in the serde visitors the size hint flows only into Vec::with_capacity (forward taint incl. control dependence): it cannot truncate or alter the value")
